@@ -1869,8 +1869,9 @@ theorem addAtSegsH_spec2 {h : Heap} {rank : Addr → Nat} (hc : h.Closed) (hr : 
 /-- a call that goes through the member `segBase p` of `c` does not disturb what `Child(q)` finds, nor
     anything below it, for a component `q` with another base key (tree-shaped document) -/
 theorem frame_other_member {h h' : Heap} {rank : Addr → Nat} (hc : h.Closed) (hr : h.RankedBy rank)
-    {c v w y0 : Addr} (hs : SibSep h c) {kvs : AMap Addr} (hg : h.get? c = some (.cont kvs)) {p q : String}
-    (spec : AttachSpec h c v w h') (key : KeySpec h c w (segBase p) h') (hne : segBase p ≠ segBase q)
+    {c w y0 : Addr} (hs : SibSep h c) {kvs : AMap Addr} (hg : h.get? c = some (.cont kvs)) {p q : String}
+    (hfr : ∀ a, a < h.size → a ≠ w → h'.get? a = h.get? a) (hcw : Composite h w)
+    (key : KeySpec h c w (segBase p) h') (hne : segBase p ≠ segBase q)
     (hch : childH h c q = some y0) :
     childH h' c q = some y0 ∧ ∀ b, Reach h y0 b → h'.get? b = h.get? b := by
   obtain ⟨kq, hkq, hry⟩ := childH_base hg hch
@@ -1878,12 +1879,12 @@ theorem frame_other_member {h h' : Heap} {rank : Addr → Nat} (hc : h.Closed) (
   have hkqlt : kq < h.size := hc c _ hg kq (mem_kids_of_get? hkq)
   have U : ∀ b, Reach h kq b → h'.get? b = h.get? b := by
     intro b hb
-    apply spec.frame b (reach_lt hc hb hkqlt)
+    apply hfr b (reach_lt hc hb hkqlt)
     intro e; subst e
     rcases hwhere with hwc | ⟨kp, hkp, hkw⟩
     · exact not_reach_parent hr hg (mem_kids_of_get? hkq) hb hwc
     · obtain ⟨i, j, hij, hi, hj⟩ := kids_indices (AMap.mem_of_get? hkq) (AMap.mem_of_get? hkp) (Ne.symm hne)
-      exact hs c _ (.refl _) hg i j kq kp hi hj hij b hb hkw spec.composite_w
+      exact hs c _ (.refl _) hg i j kq kp hi hj hij b hb hkw hcw
   refine ⟨?_, fun b hb => U b (hry.trans hb)⟩
   have hch0 := hch
   simp only [childH, hg, hg', childKvs] at hch ⊢
@@ -1929,7 +1930,7 @@ theorem addAtSegsH_lookup_frame {h : Heap} {rank : Addr → Nat} (hc : h.Closed)
     cases qs with
     | nil =>
       simp only [lookupSegsH] at hlk ⊢
-      exact (frame_other_member hc hr hs hg spec key hne hlk).1
+      exact (frame_other_member hc hr hs hg spec.frame spec.composite_w key hne hlk).1
     | cons t qs' =>
       simp only [lookupSegsH] at hlk ⊢
       cases hcc : contChildH h c q with
@@ -1937,7 +1938,7 @@ theorem addAtSegsH_lookup_frame {h : Heap} {rank : Addr → Nat} (hc : h.Closed)
       | some y =>
         simp only [hcc] at hlk
         obtain ⟨hch, kvsy, hgy⟩ := contChildH_some hcc
-        obtain ⟨hch', U⟩ := frame_other_member hc hr hs hg spec key hne hch
+        obtain ⟨hch', U⟩ := frame_other_member hc hr hs hg spec.frame spec.composite_w key hne hch
         have hgy' : h'.get? y = some (.cont kvsy) := by rw [U y (.refl _)]; exact hgy
         simp only [contChildH, hch', hgy']
         rw [lookupSegsH_congr (t :: qs') y U]
@@ -2235,5 +2236,112 @@ theorem pathwrite_detaches {h h' : Heap} {rank : Addr → Nat} (hr : h.RankedBy 
       · exact Or.inl hp
       · exact Or.inr (by rw [hp]; exact ⟨hvy, hvx⟩)
     · cases he
+
+/-! ## 14. the same frame for `RemoveAt` -/
+
+/-- the last component of the path is a plain member name (the domain of remove paths in C03) -/
+def LastPlain (segs : List String) : Prop := ∀ l, segs.getLast? = some l → hasIdxSuffix l = false
+
+theorem LastPlain.tail {p q : String} {rest : List String} (h : LastPlain (p :: q :: rest)) : LastPlain (q :: rest) := by
+  intro l hl; exact h l (by rw [List.getLast?_cons_cons]; exact hl)
+
+/-- `RemoveAt` through the first component `p`: at most one cell `w` changes (a container that stays a
+    container), it is `c` or lies below the member `segBase p`, and no other member of `c` changes -/
+theorem removeAtSegsH_spec2 {h : Heap} {rank : Addr → Nat} (hr : h.RankedBy rank) :
+    ∀ (p : String) (rest : List String) (c : Addr) (h' : Heap) (kvs : AMap Addr), LastPlain (p :: rest) →
+      h.get? c = some (.cont kvs) → removeAtSegsH h c (p :: rest) = some h' →
+      ∃ w, Reach h c w ∧ (∃ kw kw', h.get? w = some (.cont kw) ∧ h'.get? w = some (.cont kw')) ∧
+        (∀ a, a ≠ w → h'.get? a = h.get? a) ∧ KeySpec h c w (segBase p) h'
+  | p, [], c, h', kvs, hlp, hg, he => by
+    simp only [removeAtSegsH, Ytk.Heap.remove, hg, Option.some.injEq] at he
+    subst he
+    have hplain : hasIdxSuffix p = false := hlp p rfl
+    have hb : segBase p = p := by simp [segBase, Ytk.parseSeg_of_noSuffix hplain]
+    refine ⟨c, .refl _, ⟨kvs, _, hg, get?_write_self h _ (get?_lt hg)⟩, fun a hne => get?_write_ne h _ hne, ?_⟩
+    intro kvs0 hg0
+    rw [hg] at hg0; cases hg0
+    exact ⟨Or.inl rfl, _, get?_write_self h _ (get?_lt hg), fun k hk => AMap.get?_erase_ne _ (by rw [hb] at hk; exact hk)⟩
+  | p, t :: rest, c, h', kvs, hlp, hg, he => by
+    simp only [removeAtSegsH] at he
+    cases hcc : contChildH h c p with
+    | none =>
+      simp only [hcc, Option.some.injEq] at he; subst he
+      exact ⟨c, .refl _, ⟨kvs, kvs, hg, hg⟩, fun _ _ => rfl, fun kvs0 hg0 => ⟨Or.inl rfl, kvs0, hg0, fun _ _ => rfl⟩⟩
+    | some y =>
+      simp only [hcc] at he
+      obtain ⟨hch, kvsy, hgy⟩ := contChildH_some hcc
+      obtain ⟨w, hyw, hkind, hfr, _⟩ := removeAtSegsH_spec2 hr t rest y h' kvsy hlp.tail hgy he
+      obtain ⟨kp, hkp, hky⟩ := childH_base hg hch
+      have hwc : w ≠ c := not_reach_parent hr hg (mem_kids_of_get? hkp) (hky.trans hyw)
+      refine ⟨w, (childH_reach hch).trans hyw, hkind, hfr, ?_⟩
+      intro kvs0 hg0
+      rw [hg] at hg0; cases hg0
+      exact ⟨Or.inr ⟨kp, hkp, hky.trans hyw⟩, kvs, by rw [hfr c (Ne.symm hwc)]; exact hg, fun _ _ => rfl⟩
+
+/-- FRAME for handles at pointer level: `RemoveAt(ps)` on `c` does not move what `Lookup(qs)` finds
+    when the two paths diverge by key -/
+theorem removeAtSegsH_lookup_frame {h : Heap} {rank : Addr → Nat} (hc : h.Closed) (hr : h.RankedBy rank) :
+    ∀ (ps qs : List String), Diverge ps qs → LastPlain ps → ∀ (c : Addr) (h' : Heap) (x : Addr), SibSep h c →
+      removeAtSegsH h c ps = some h' → lookupSegsH h c qs = some x → lookupSegsH h' c qs = some x
+  | _, _, @Diverge.head p q ps qs hne, hlp, c, h', x, hs, he, hlk => by
+    have hgc : ∃ kvs, h.get? c = some (.cont kvs) := by
+      cases hg : h.get? c with
+      | none => cases qs <;> simp [lookupSegsH, contChildH, childH, hg] at hlk
+      | some cell =>
+        cases cell with
+        | cont kvs => exact ⟨kvs, rfl⟩
+        | leaf _ => cases qs <;> simp [lookupSegsH, contChildH, childH, hg] at hlk
+        | list _ => cases qs <;> simp [lookupSegsH, contChildH, childH, hg] at hlk
+    obtain ⟨kvs, hg⟩ := hgc
+    obtain ⟨w, _, ⟨kw, kw', hgw, _⟩, hfr, key⟩ := removeAtSegsH_spec2 hr p ps c h' kvs hlp hg he
+    have hcw : Composite h w := ⟨_, hgw, rfl⟩
+    have hfr' : ∀ a, a < h.size → a ≠ w → h'.get? a = h.get? a := fun a _ hne => hfr a hne
+    cases qs with
+    | nil =>
+      simp only [lookupSegsH] at hlk ⊢
+      exact (frame_other_member hc hr hs hg hfr' hcw key hne hlk).1
+    | cons t qs' =>
+      simp only [lookupSegsH] at hlk ⊢
+      cases hcc : contChildH h c q with
+      | none => simp [hcc] at hlk
+      | some y =>
+        simp only [hcc] at hlk
+        obtain ⟨hch, kvsy, hgy⟩ := contChildH_some hcc
+        obtain ⟨hch', U⟩ := frame_other_member hc hr hs hg hfr' hcw key hne hch
+        have hgy' : h'.get? y = some (.cont kvsy) := by rw [U y (.refl _)]; exact hgy
+        simp only [contChildH, hch', hgy']
+        rw [lookupSegsH_congr (t :: qs') y U]
+        exact hlk
+  | _, _, @Diverge.tail p ps qs hps hqs hd, hlp, c, h', x, hs, he, hlk => by
+    obtain ⟨t, ps', rfl⟩ : ∃ t ps', ps = t :: ps' := by
+      cases ps with
+      | nil => exact absurd rfl hps
+      | cons t ps' => exact ⟨t, ps', rfl⟩
+    obtain ⟨u, qs', rfl⟩ : ∃ u qs', qs = u :: qs' := by
+      cases qs with
+      | nil => exact absurd rfl hqs
+      | cons u qs' => exact ⟨u, qs', rfl⟩
+    simp only [lookupSegsH] at hlk ⊢
+    simp only [removeAtSegsH] at he
+    cases hcc : contChildH h c p with
+    | none => simp [hcc] at hlk
+    | some y =>
+      simp only [hcc] at hlk he
+      obtain ⟨hch, kvsy, hgy⟩ := contChildH_some hcc
+      have hcy := childH_reach hch
+      have ih := removeAtSegsH_lookup_frame hc hr (t :: ps') (u :: qs') hd hlp.tail y h' x (hs.of_reach hcy) he hlk
+      obtain ⟨w, hyw, ⟨kw, kw', hgw, hgw'⟩, hfr, _⟩ := removeAtSegsH_spec2 hr t ps' y h' kvsy hlp.tail hgy he
+      have hrw := rank_le_of_reach hr hyw
+      have hfr' : ∀ b, b < h.size → rank y < rank b → h'.get? b = h.get? b := by
+        intro b _ hrk
+        exact hfr b (by intro e; subst e; omega)
+      have hch' := childH_frame hr hfr' hch
+      have hgy' : ∃ kvs', h'.get? y = some (.cont kvs') := by
+        by_cases hyw' : y = w
+        · subst hyw'; exact ⟨kw', hgw'⟩
+        · exact ⟨kvsy, by rw [hfr y hyw']; exact hgy⟩
+      obtain ⟨kvs', hgy'⟩ := hgy'
+      simp only [contChildH, hch', hgy']
+      exact ih
 
 end Ytk.Heap
